@@ -33,6 +33,8 @@ Definition pi_unmarshal (b : slice) : res unit :=
    if negb (l1 =? 4) then Err EOther
    else
      value <- slfrom b 2 ;;
+     pl <- idx value 0 ;;
+     if 128 <? pl then Err EOther else     (* prefix length above 128 rejected (cb8b5b9) *)
      _ <- idx value 1 ;;
      _ <- idx value 1 ;;
      _ <- sl value 2 6 ;;
@@ -54,12 +56,12 @@ Definition ri_unmarshal (b : slice) : res unit :=
    pl <- idx b 2 ;;
    if negb (ri_len_ok l pl) then Err EOther
    else
-     _ <- sl b 4 8 ;;
      p3 <- idx b 3 ;;
-     (* checkPreference((b[3] & 0x18) >> 3): 2 is the reserved value *)
+     (* checkPreference((b[3] & 0x18) >> 3): 2 is the reserved value; checked before anything
+        is assigned (3a9dc1a) *)
      if N.shiftr (N.land p3 24) 3 =? 2 then Err EOther
-     (* b[8 : 8+(int(pl)+7)/8] (as repaired by 8afc7d0) *)
-     else _ <- sl b 8 (8 + N.to_nat ((pl + 7) / 8)) ;; Ok tt)%res.
+     (* b[8 : 8+(int(pl)+7)/8] (as repaired by ade5692) *)
+     else _ <- sl b 4 8 ;; _ <- sl b 8 (8 + N.to_nat ((pl + 7) / 8)) ;; Ok tt)%res.
 
 (* RecursiveDNSServer.unmarshal (:405) *)
 Fixpoint rdnss_servers (n : nat) (i : nat) (value : slice) : res unit :=
@@ -70,14 +72,13 @@ Fixpoint rdnss_servers (n : nat) (i : nat) (value : slice) : res unit :=
 
 Definition rdnss_unmarshal (b : slice) : res unit :=
   (value <- slfrom b 2 ;;
-   _ <- sl value 2 6 ;;
    l1 <- idx b 1 ;;
    let dividend := ((Z.of_N l1 - 1) * 8)%Z in
-   if negb (Z.eqb (Z.rem dividend 2) 0) then Err EOther
+   if negb (Z.eqb (Z.rem dividend 16) 0) then Err EOther    (* dividend % net.IPv6len (0b179fd) *)
    else
      let count := Z.quot dividend 16 in
      if Z.eqb count 0 then Err EOther
-     else rdnss_servers (Z.to_nat count) 0 value)%res.
+     else _ <- sl value 2 6 ;; rdnss_servers (Z.to_nat count) 0 value)%res.
 
 (* RawOption.unmarshal (:630): Value is a fresh slice (make: cap = len) *)
 Definition raw_unmarshal (b : slice) : res slice :=
